@@ -421,6 +421,68 @@ class _CB(flow.DefaultCB):
                 return False
         return None
 
+    def _conv_extent(self, e: ast.BinOp, s: St) -> Any:
+        """`(n + 2*p - k) // s + 1` with n an extent of the input, p / k / s entries of the module's padding /
+        kernel_size / stride pairs: the number of window positions along that axis (A3: torch's convolution
+        arithmetic), i.e. the extent `win(pad(n, p), k, s)`.  True division in place of the floor is reported."""
+        if not (isinstance(e.op, ast.Add) and isinstance(e.right, ast.Constant) and e.right.value == 1 and isinstance(e.left, ast.BinOp)
+                and isinstance(e.left.op, (ast.FloorDiv, ast.Div))):
+            return None
+        num, den = e.left.left, e.left.right
+
+        def tagof(x: ast.expr) -> str | None:
+            try:
+                v, _ = self.ev(x, s, quiet=True)
+            except Exception:  # noqa: BLE001
+                return None
+            return v.tag if isinstance(v, ObjV) else None
+        st_ = tagof(den)
+        if st_ is None or not st_.startswith('stride['):
+            return None
+        # numerator: terms of a sum / difference
+        terms: list[tuple[int, ast.expr]] = []
+
+        def split(x: ast.expr, sign: int) -> None:
+            if isinstance(x, ast.BinOp) and isinstance(x.op, (ast.Add, ast.Sub)):
+                split(x.left, sign)
+                split(x.right, sign if isinstance(x.op, ast.Add) else -sign)
+            else:
+                terms.append((sign, x))
+        split(num, 1)
+        size_ax = None
+        pad = None
+        ker = None
+        for sign, t in terms:
+            if sign == 1 and isinstance(t, ast.BinOp) and isinstance(t.op, ast.Mult):
+                c, o = (t.left, t.right) if isinstance(t.left, ast.Constant) else (t.right, t.left)
+                tg = tagof(o)
+                if isinstance(c, ast.Constant) and c.value == 2 and tg and tg.startswith('padding[') and pad is None:
+                    pad = tg
+                    continue
+                return None
+            tg = tagof(t)
+            if sign == -1 and tg and tg.startswith('kernel_size[') and ker is None:
+                ker = tg
+                continue
+            if sign == 1 and size_ax is None:
+                try:
+                    v, _ = self.ev(t, s, quiet=True)
+                except Exception:  # noqa: BLE001
+                    return None
+                if isinstance(v, SV) and v.kind == 'size' and isinstance(v.size, str):
+                    size_ax = v.size
+                    continue
+            return None
+        if size_ax is None or ker is None:
+            return None
+        nf = getattr(self.it, 'num_facts', None) or {}
+        inner = ('pad', size_ax, pad) if pad is not None and nf.get(pad) != 0 else size_ax
+        if isinstance(e.left.op, ast.Div):
+            self.it.err(self.f, e, f'{norm(e)[:80]}: the number of window positions is computed with true division; it is floor(({size_ax} + 2p - k) / s) + 1, '
+                                   'so the value is fractional (and too large) whenever the padded extent minus the kernel is not a multiple of the stride')
+        ax = ('win', inner, ker, st_)
+        return SV((), f'size{axes_str((ax,))}', 'size', ax)
+
     def _absnum(self, e: ast.expr, s: St, nf: dict) -> tuple | None:
         """Abstract value of a small arithmetic test over extents known to be 0 or positive ('P' = at least 1):
         ('num', 0 | 'P' | int) or ('bool', b); None when not decided."""
@@ -596,6 +658,9 @@ class _CB(flow.DefaultCB):
         if isinstance(e, ast.Call):
             return self.ev_call(e, s, quiet)
         if isinstance(e, ast.BinOp):
+            ce = self._conv_extent(e, s)
+            if ce is not None:
+                return ce, s
             a, s = self.ev(e.left, s, quiet)
             b, s = self.ev(e.right, s, quiet)
             return self.binop(e.op, a, b, e, s), s
@@ -849,6 +914,8 @@ class _CB(flow.DefaultCB):
                 if isinstance(sz.size, tuple) and sz.size and sz.size[0] == 'shard':
                     return SV((), f'full({sz.text})', 'size', sz.size[1])
                 return SV((), f'({sz.text}*mp)', 'size', ('times-mp', sz.size))
+            if isinstance(a, SV) and isinstance(b, SV) and sign == 1 and {a.kind, b.kind} == {'size', 'num'} and (a if a.kind == 'num' else b).text in ('1', '1.0'):
+                return a if a.kind == 'size' else b
             if isinstance(a, SV) and isinstance(b, SV):
                 k = 'size' if (a.kind == 'size' and b.kind == 'size' and sign == 1) else 'num'
                 sz = prod_axis([a.size, b.size]) if k == 'size' else None
